@@ -182,27 +182,374 @@ Proof.
   constructor; [|now apply IH]. intros Hin. apply Hn. now apply in_map.
 Qed.
 
-Lemma gomod_struct_exact_lemma rs : wf_gomod rs = true ->
-  extract_gomod (struct_of_gomod rs) = Ok (expected_gomod rs).
+(* --- a map whose keys are the requirements themselves *)
+Definition vmap (reqs : list pkg) (vals : pkg -> pkg) : list (gkey * pkg) := map (fun q => (q, vals q)) reqs.
+
+Lemma pkg_eqb_refl p : pkg_eqb p p = true.
+Proof. now apply pkg_eqb_eq. Qed.
+Lemma pkg_eqb_neq p q : pkg_eqb p q = false <-> p <> q.
 Proof.
-  unfold wf_gomod. intros H. apply andb_true_iff in H as [H1 H2]. apply nodup_bytes_NoDup in H1. apply negb_true_iff in H2.
-  pose proof (NoDup_fst_NoDup _ H1) as ND.
-  unfold extract_gomod, struct_of_gomod, gomod_goversion. cbn [gm_require gm_replace gm_go gm_toolchain is_nil fold_left]. f_equal.
-  rewrite fold_left_map_pre.
+  split; [intros E H; apply pkg_eqb_eq in H; congruence|].
+  intros H. destruct (pkg_eqb p q) eqn:E; [apply pkg_eqb_eq in E; contradiction|reflexivity].
+Qed.
+
+Lemma gmap_set_present reqs vals k v : NoDup reqs -> In k reqs ->
+  gmap_set k v (vmap reqs vals) = vmap reqs (fun q => if pkg_eqb q k then v else vals q).
+Proof.
+  unfold vmap. induction reqs as [|q reqs IH]; intros Hnd Hin; [contradiction|].
+  inversion Hnd as [|? ? Hn Hnd']; subst. cbn [map gmap_set].
+  destruct (pkg_eqb k q) eqn:E.
+  - apply pkg_eqb_eq in E. subst q. rewrite pkg_eqb_refl. f_equal.
+    apply map_ext_in. intros x Hx. destruct (pkg_eqb x k) eqn:E2; [apply pkg_eqb_eq in E2; subst; contradiction|reflexivity].
+  - destruct Hin as [->|Hin]; [rewrite pkg_eqb_refl in E; discriminate|].
+    assert (pkg_eqb q k = false) as -> by (apply pkg_eqb_neq; apply pkg_eqb_neq in E; congruence).
+    now rewrite IH.
+Qed.
+
+Lemma set_targets reqs newp : NoDup reqs -> forall ts vals, (forall t, In t ts -> In t reqs) ->
+  fold_left (fun m k => gmap_set k newp m) ts (vmap reqs vals) = vmap reqs (fun q => if pkg_mem q ts then newp else vals q).
+Proof.
+  intros Hnd. induction ts as [|t ts IH]; intros vals Hsub; [reflexivity|].
+  cbn [fold_left]. rewrite gmap_set_present; [|exact Hnd|apply Hsub; now left].
+  rewrite IH by (intros x Hx; apply Hsub; now right).
+  unfold vmap. apply map_ext. intros q. cbn [pkg_mem].
+  destruct (pkg_mem q ts), (pkg_eqb q t); reflexivity.
+Qed.
+
+Definition conv_rr (r : gomod_rrec) : gomod_replace :=
+  {| gr_old := rr_old r; gr_oldv := vpre (rr_oldv r); gr_new := rr_new r; gr_newv := vpre (rr_newv r) |}.
+Definition newp (r : gomod_rrec) : pkg := (rr_new r, rr_newv r).
+
+Lemma trim_v_vpre v : trim_v (vpre v) = v.
+Proof. destruct v; reflexivity. Qed.
+Lemma is_nil_vpre v : is_nil (vpre v) = is_nil v.
+Proof. destruct v; reflexivity. Qed.
+
+Lemma gmap_mem_vmap k reqs vals : gmap_mem k (vmap reqs vals) = pkg_mem k reqs.
+Proof. unfold vmap. induction reqs as [|q reqs IH]; [reflexivity|]. cbn [map gmap_mem pkg_mem]. now rewrite IH. Qed.
+
+Lemma filter_vmap_fst reqs vals (P : pkg -> bool) :
+  map fst (filter (fun kv => P (snd kv)) (vmap reqs vals)) = filter (fun q => P (vals q)) reqs.
+Proof.
+  unfold vmap. induction reqs as [|q reqs IH]; [reflexivity|]. cbn [map filter snd]. destruct (P (vals q)); cbn [map fst]; now rewrite IH.
+Qed.
+
+(* one replace directive on a map whose current names agree with the original ones as far as this directive is concerned *)
+Lemma apply_replace_step reqs vals r : NoDup reqs ->
+  (forall q, In q reqs -> bytes_eqb (fst (vals q)) (rr_old r) = bytes_eqb (fst q) (rr_old r)) ->
+  gomod_apply_replace (vmap reqs vals) (conv_rr r) = vmap reqs (fun q => if rr_matches r q then newp r else vals q).
+Proof.
+  intros Hnd H1. unfold gomod_apply_replace, conv_rr. cbn [gr_old gr_oldv gr_new gr_newv].
+  rewrite is_nil_vpre, !trim_v_vpre. fold (newp r).
+  destruct (is_nil (rr_oldv r)) eqn:Ev.
+  - match goal with |- context [map fst (filter ?f (vmap reqs vals))] =>
+      replace (map fst (filter f (vmap reqs vals))) with (filter (fun q => bytes_eqb (fst (vals q)) (rr_old r)) reqs)
+        by (symmetry; apply (filter_vmap_fst reqs vals (fun v => bytes_eqb (fst v) (rr_old r)))) end.
+    rewrite set_targets; [|exact Hnd|intros t Ht; now apply filter_In in Ht].
+    unfold vmap. apply map_ext_in. intros q Hq. unfold rr_matches. rewrite Ev. cbn [orb]. rewrite andb_true_r.
+    destruct (pkg_mem q (filter _ reqs)) eqn:E.
+    + apply pkg_mem_in, filter_In in E as [_ E]. rewrite H1 in E by exact Hq. now rewrite E.
+    + destruct (bytes_eqb (fst q) (rr_old r)) eqn:E2; [|reflexivity]. exfalso.
+      assert (pkg_mem q (filter (fun q0 => bytes_eqb (fst (vals q0)) (rr_old r)) reqs) = true) as T
+        by (apply pkg_mem_in, filter_In; split; [exact Hq|now rewrite H1]).
+      congruence.
+  - rewrite gmap_mem_vmap. destruct (pkg_mem (rr_old r, rr_oldv r) reqs) eqn:Em.
+    + rewrite set_targets; [|exact Hnd|intros t [<-|[]]; now apply pkg_mem_in].
+      unfold vmap. apply map_ext. intros q. cbn [pkg_mem]. rewrite orb_false_r. unfold rr_matches, pkg_eqb. cbn [fst snd]. now rewrite Ev.
+    + cbn [fold_left]. unfold vmap. apply map_ext_in. intros q Hq. unfold rr_matches. rewrite Ev. cbn [orb].
+      destruct (bytes_eqb (fst q) (rr_old r) && bytes_eqb (snd q) (rr_oldv r)) eqn:E; [|reflexivity]. exfalso.
+      apply andb_true_iff in E as [E1 E2]. apply bytes_eqb_eq in E1, E2. destruct q as [a b]. cbn [fst snd] in *. subst.
+      apply pkg_mem_in in Hq. congruence.
+Qed.
+
+(* all directives in sequence *)
+Definition seq_apply (rsl : list gomod_rrec) (start : pkg) (q : pkg) : pkg :=
+  fold_left (fun cur r => if rr_matches r q then newp r else cur) rsl start.
+
+Lemma seq_apply_nomatch rsl start q : (forall r, In r rsl -> rr_matches r q = false) -> seq_apply rsl start q = start.
+Proof.
+  unfold seq_apply. revert start. induction rsl as [|r rsl IH]; intros start H; [reflexivity|].
+  cbn [fold_left]. rewrite (H r (or_introl eq_refl)). apply IH. intros x Hx. apply H. now right.
+Qed.
+
+Lemma rr_matches_old r q : rr_matches r q = true -> fst q = rr_old r.
+Proof. unfold rr_matches. intros H. apply andb_true_iff in H as [H _]. now apply bytes_eqb_eq. Qed.
+
+Lemma replace_fold reqs : NoDup reqs -> forall rsl vals,
+  NoDup (map rr_old rsl) ->
+  (forall r r', In r rsl -> In r' rsl -> rr_new r <> rr_old r') ->
+  (forall q r, In q reqs -> In r rsl -> bytes_eqb (fst (vals q)) (rr_old r) = bytes_eqb (fst q) (rr_old r)) ->
+  fold_left gomod_apply_replace (map conv_rr rsl) (vmap reqs vals) = vmap reqs (fun q => seq_apply rsl (vals q) q).
+Proof.
+  intros Hnd. induction rsl as [|r rsl IH]; intros vals Ho Hno H1; [reflexivity|].
+  inversion Ho as [|? ? Hnin Ho']; subst. cbn [map fold_left].
+  rewrite apply_replace_step; [|exact Hnd|intros q Hq; apply H1; [exact Hq|now left]].
+  rewrite IH; [reflexivity|exact Ho'|intros a b Ha Hb; apply Hno; now right|].
+  intros q r' Hq Hr'. destruct (rr_matches r q) eqn:E.
+  - apply rr_matches_old in E. cbn [newp fst].
+    assert (bytes_eqb (rr_new r) (rr_old r') = false) as -> by (apply bytes_eqb_neq, Hno; [now left|now right]).
+    symmetry. apply bytes_eqb_neq. rewrite E. intros E2. apply Hnin. rewrite E2. now apply in_map.
+  - apply H1; [exact Hq|now right].
+Qed.
+
+Lemma seq_is_find rsl q : NoDup (map rr_old rsl) -> seq_apply rsl q q = apply_replaces rsl q.
+Proof.
+  unfold apply_replaces. assert (forall start, NoDup (map rr_old rsl) ->
+    seq_apply rsl start q = match find (fun r => rr_matches r q) rsl with Some r => newp r | None => start end) as G.
+  { induction rsl as [|r rsl IH]; intros start Ho; [reflexivity|]. inversion Ho as [|? ? Hnin Ho']; subst.
+    unfold seq_apply. cbn [fold_left find]. destruct (rr_matches r q) eqn:E.
+    - fold (seq_apply rsl (newp r) q). apply seq_apply_nomatch. intros r' Hr'.
+      destruct (rr_matches r' q) eqn:E2; [|reflexivity]. exfalso. apply rr_matches_old in E, E2.
+      apply Hnin. rewrite <- E, E2. now apply in_map.
+    - fold (seq_apply rsl start q). now apply IH. }
+  intros Ho. now rewrite G.
+Qed.
+
+Lemma apply_replaces_cases rsl q :
+  apply_replaces rsl q = q \/ exists r, In r rsl /\ rr_matches r q = true /\ apply_replaces rsl q = newp r.
+Proof.
+  unfold apply_replaces. destruct (find _ rsl) as [r|] eqn:E; [|now left].
+  right. apply find_some in E as [E1 E2]. eauto.
+Qed.
+
+Lemma wf_gomod_parts rs : wf_gomod rs = true ->
+  NoDup (map fst (gq_requires rs)) /\ ~ In s_stdlib (map fst (gq_requires rs)) /\
+  NoDup (map rr_old (gq_replaces rs)) /\ NoDup (map rr_new (gq_replaces rs)) /\
+  (forall r, In r (gq_replaces rs) -> ~ In (rr_new r) (map fst (gq_requires rs)) /\ ~ In (rr_new r) (map rr_old (gq_replaces rs)) /\ rr_new r <> s_stdlib).
+Proof.
+  unfold wf_gomod. intros H. apply andb_true_iff in H as [H H5]. apply andb_true_iff in H as [H H4].
+  apply andb_true_iff in H as [H H3]. apply andb_true_iff in H as [H1 H2].
+  apply nodup_bytes_NoDup in H1, H3, H4. apply negb_true_iff in H2.
+  repeat split; auto.
+  - intros T. apply bytes_mem_in in T. congruence.
+  - rewrite forallb_forall in H5. specialize (H5 (rr_new r) (in_map _ _ _ H)). apply andb_true_iff in H5 as [H5 _].
+    apply andb_true_iff in H5 as [H5 _]. apply negb_true_iff in H5. intros T. apply bytes_mem_in in T. congruence.
+  - rewrite forallb_forall in H5. specialize (H5 (rr_new r) (in_map _ _ _ H)). apply andb_true_iff in H5 as [H5 _].
+    apply andb_true_iff in H5 as [_ H5]. apply negb_true_iff in H5. intros T. apply bytes_mem_in in T. congruence.
+  - rewrite forallb_forall in H5. specialize (H5 (rr_new r) (in_map _ _ _ H)). apply andb_true_iff in H5 as [_ H5].
+    apply negb_true_iff, bytes_eqb_neq in H5. exact H5.
+Qed.
+
+Lemma NoDup_map_inj_on {A B} (f : A -> B) (l : list A) :
+  NoDup l -> (forall x y, In x l -> In y l -> f x = f y -> x = y) -> NoDup (map f l).
+Proof.
+  induction l as [|x l IH]; intros Hnd Hinj; [constructor|]. inversion Hnd as [|? ? Hn Hnd']; subst.
+  cbn [map]. constructor.
+  - intros Hin. apply in_map_iff in Hin as (y & E & Hy). assert (y = x) by (apply Hinj; [now right|now left|exact E]). subst. contradiction.
+  - apply IH; [exact Hnd'|]. intros a b Ha Hb. apply Hinj; now right.
+Qed.
+
+Lemma NoDup_map_eq {A B} (f : A -> B) (l : list A) x y : NoDup (map f l) -> In x l -> In y l -> f x = f y -> x = y.
+Proof.
+  induction l as [|a l IH]; intros Hnd Hx Hy E; [contradiction|]. cbn [map] in Hnd. inversion Hnd as [|? ? Hn Hnd']; subst.
+  destruct Hx as [->|Hx], Hy as [->|Hy]; auto.
+  - exfalso. apply Hn. rewrite E. now apply in_map.
+  - exfalso. apply Hn. rewrite <- E. now apply in_map.
+Qed.
+
+Definition gm_m0 (st : gomod_st) : list (gkey * pkg) :=
+  fold_left (fun m rq => let p := (fst rq, trim_v (snd rq)) in gmap_set p p m) (gm_require st) [].
+Definition gm_m1 (st : gomod_st) : list (gkey * pkg) := fold_left gomod_apply_replace (gm_replace st) (gm_m0 st).
+Definition gm_m2 (st : gomod_st) : list (gkey * pkg) :=
+  let gv := gomod_goversion st in if is_nil gv then gm_m1 st else gmap_set (s_stdlib, []) (s_stdlib, gv) (gm_m1 st).
+Lemma extract_gomod_eq st :
+  extract_gomod st = Ok (map snd (fold_left (fun d kv => gmap_set (snd kv) (snd kv) d) (gm_m2 st) [])).
+Proof. reflexivity. Qed.
+
+Lemma gm_m0_struct rs : NoDup (gq_requires rs) -> gm_m0 (struct_of_gomod rs) = vmap (gq_requires rs) (fun q => q).
+Proof.
+  intros ND. unfold gm_m0, struct_of_gomod. cbn [gm_require]. rewrite fold_left_map_pre.
   assert (forall l m, fold_left (fun m0 (x : pkg) => let p := (fst (fst x, 118 :: snd x), trim_v (snd (fst x, 118 :: snd x))) in gmap_set p p m0) l m =
                       fold_left (fun m' x => gmap_set ((fun y => y) x) ((fun y => y) x) m') l m) as E.
   { induction l as [|[a b] l IH]; intros m; [reflexivity|]. cbn [fold_left fst snd trim_v]. apply IH. }
-  rewrite E, (gfold_diag (fun y => y)); [|now rewrite map_id|reflexivity]. cbn [app].
-  set (m1 := map (fun x : pkg => (x, x)) (gq_requires rs)).
-  assert (forall k, gmap_mem k m1 = pkg_mem k (gq_requires rs)) as Hm by (intros k; apply gmap_mem_diag).
-  assert (forall v, pkg_mem (s_stdlib, v) (gq_requires rs) = false) as Hs.
-  { intros v. apply not_true_is_false. intros T. apply pkg_mem_in in T. apply (in_map fst) in T. cbn [fst] in T.
-    apply bytes_mem_in in T. congruence. }
-  unfold expected_gomod. destruct (is_nil (gq_go rs)) eqn:Eg.
-  - rewrite app_nil_r. unfold m1. rewrite fold_left_map_pre, (gfold_diag (fun y => y)); [|now rewrite map_id|reflexivity].
-    cbn [app]. rewrite map_map. cbn [snd]. now rewrite map_id.
-  - rewrite gmap_set_fresh by (rewrite Hm; apply Hs).
-    rewrite fold_left_app. unfold m1. rewrite fold_left_map_pre, (gfold_diag (fun y => y)); [|now rewrite map_id|reflexivity].
-    cbn [app fold_left snd]. rewrite gmap_set_fresh by (rewrite gmap_mem_diag; apply Hs).
-    rewrite map_app, map_map. cbn [map snd]. now rewrite map_id.
+  rewrite E, (gfold_diag (fun y => y)); [reflexivity|now rewrite map_id|reflexivity].
+Qed.
+
+Lemma gomod_struct_exact_lemma rs : wf_gomod rs = true ->
+  extract_gomod (struct_of_gomod rs) = Ok (expected_gomod rs).
+Proof.
+  intros H. apply wf_gomod_parts in H as (P1 & P2 & P3 & P4 & P5).
+  pose proof (NoDup_fst_NoDup _ P1) as ND.
+  rewrite extract_gomod_eq. f_equal.
+  assert (gm_m1 (struct_of_gomod rs) = vmap (gq_requires rs) (apply_replaces (gq_replaces rs))) as M1.
+  { unfold gm_m1. rewrite gm_m0_struct by exact ND. unfold struct_of_gomod. cbn [gm_replace].
+    change (map (fun r => {| gr_old := rr_old r; gr_oldv := vpre (rr_oldv r); gr_new := rr_new r; gr_newv := vpre (rr_newv r) |}) (gq_replaces rs))
+      with (map conv_rr (gq_replaces rs)).
+    rewrite replace_fold; [|exact ND|exact P3| |reflexivity].
+    - unfold vmap. apply map_ext. intros q. f_equal. now apply seq_is_find.
+    - intros r r' Hr Hr' E2. destruct (P5 r Hr) as (_ & N2 & _). apply N2. rewrite E2. now apply in_map. }
+  set (reqs := gq_requires rs) in *. set (rsl := gq_replaces rs) in *.
+  assert (gomod_goversion (struct_of_gomod rs) = stdlib_version (gq_go rs) (gq_toolchain rs)) as GV.
+  { unfold gomod_goversion, stdlib_version, struct_of_gomod. cbn [gm_go gm_toolchain]. destruct (gq_toolchain rs); reflexivity. }
+  unfold gm_m2. rewrite GV, M1. clear M1 GV.
+  (* values are pairwise different and none is stdlib *)
+  set (vals := map (apply_replaces rsl) reqs).
+  assert (NoDup vals /\ forall v, ~ In (s_stdlib, v) vals) as [NV NS].
+  { split.
+    - unfold vals. apply NoDup_map_inj_on; [exact ND|]. intros x y Hx Hy Exy.
+      destruct (apply_replaces_cases rsl x) as [Ex|(r1 & R1 & M1 & Ex)], (apply_replaces_cases rsl y) as [Ey|(r2 & R2 & M2 & Ey)].
+      + congruence.
+      + exfalso. rewrite Ex, Ey in Exy. destruct (P5 r2 R2) as (N1 & _). apply N1. replace (rr_new r2) with (fst x) by (rewrite Exy; reflexivity). now apply in_map.
+      + exfalso. rewrite Ex, Ey in Exy. destruct (P5 r1 R1) as (N1 & _). apply N1. replace (rr_new r1) with (fst y) by (rewrite <- Exy; reflexivity). now apply in_map.
+      + rewrite Ex, Ey in Exy. assert (r1 = r2) by (apply (NoDup_map_eq rr_new rsl); auto; unfold newp in Exy; congruence). subst r2.
+        apply rr_matches_old in M1, M2. apply (NoDup_map_eq fst reqs); auto. congruence.
+    - intros v Hin. unfold vals in Hin. apply in_map_iff in Hin as (q & Eq & Hq).
+      destruct (apply_replaces_cases rsl q) as [Ex|(r1 & R1 & M1 & Ex)]; rewrite Ex in Eq.
+      + apply P2. apply in_map_iff. exists q. split; [now rewrite Eq|exact Hq].
+      + destruct (P5 r1 R1) as (_ & _ & N3). apply N3. unfold newp in Eq. congruence. }
+  assert (forall k, gmap_mem k (map (fun x : pkg => (x, x)) vals) = pkg_mem k vals) as Hd by (intros k; apply gmap_mem_diag).
+  unfold expected_gomod. fold reqs rsl vals. set (gv := stdlib_version (gq_go rs) (gq_toolchain rs)).
+  unfold gkey in *.
+  assert (forall m2 : list (pkg * pkg), fold_left (fun d kv => gmap_set (snd kv) (snd kv) d) m2 [] =
+            fold_left (fun d x => gmap_set ((fun y => y) x) ((fun y => y) x) d) (map snd m2) []) as F2
+    by (intros m2; now rewrite fold_left_map_pre).
+  assert (map snd (vmap reqs (apply_replaces rsl)) = vals) as MS by (unfold vmap, vals; rewrite map_map; reflexivity).
+  assert (FV : fold_left (fun (d : list (gkey * pkg)) (x : pkg) => gmap_set x x d) vals [] = map (fun x : pkg => (x, x)) vals)
+    by (apply (gfold_diag (fun y => y) vals []); [rewrite map_id; exact NV|reflexivity]).
+  assert (MV : map snd (map (fun x : pkg => (x, x)) vals) = vals) by (rewrite map_map; cbn [snd]; apply map_id).
+  destruct (is_nil gv) eqn:Eg.
+  - rewrite app_nil_r. etransitivity; [apply f_equal; etransitivity; [apply F2|]; etransitivity; [apply f_equal2; [exact MS|reflexivity]|exact FV]|exact MV].
+  - rewrite gmap_set_fresh.
+    + etransitivity; [apply f_equal; etransitivity; [apply F2|]; rewrite map_app, fold_left_app; cbn [map snd fold_left];
+                      etransitivity; [apply f_equal; etransitivity; [apply f_equal2; [exact MS|reflexivity]|exact FV]|]; apply gmap_set_fresh|].
+      * rewrite Hd. apply not_true_is_false. intros T. apply pkg_mem_in in T. now apply NS in T.
+      * rewrite map_app. cbn [map snd]. f_equal. exact MV.
+    + rewrite gmap_mem_vmap. apply not_true_is_false. intros T. apply pkg_mem_in in T. apply P2.
+      apply in_map_iff. exists (s_stdlib, []). split; [reflexivity|exact T].
+Qed.
+
+(* ------------------------------------------------------------------ package-lock.json v1: nested dependencies *)
+Definition nested_all (P : npm_dep -> Prop) (nested : option (list (bytes * npm_dep))) : Prop :=
+  match nested with None => True | Some ds => Forall (fun nd => P (snd nd)) ds end.
+
+Definition npm_dep_ind2 (P : npm_dep -> Prop)
+  (H : forall v c nested, nested_all P nested -> P (NDep v c nested)) : forall d, P d :=
+  fix F (d : npm_dep) : P d :=
+    match d with
+    | NDep v c nested =>
+        H v c nested
+          (match nested as n return nested_all P n with
+           | None => I
+           | Some ds => (fix G (l : list (bytes * npm_dep)) : Forall (fun nd => P (snd nd)) l :=
+                           match l with
+                           | [] => Forall_nil _
+                           | nd :: r => Forall_cons nd (F (snd nd)) (G r)
+                           end) ds
+           end)
+    end.
+
+Definition ke (p : pkg) : bytes * pkg := (fst p ++ AT :: snd p, p).
+
+Lemma npm_dep_entry_plain n v : has_prefix s_npm v = false -> has_prefix s_file v = false ->
+  npm_dep_entry n v [] = ke (n, v).
+Proof. intros H1 H2. unfold npm_dep_entry, ke. rewrite H1, H2. reflexivity. Qed.
+
+Lemma flat_map_ext_Forall {A B} (f g : A -> list B) l : Forall (fun x => f x = g x) l -> flat_map f l = flat_map g l.
+Proof. induction 1; cbn [flat_map]; [reflexivity|]. now rewrite H, IHForall. Qed.
+
+Lemma map_flat_map {A B C} (h : B -> C) (f : A -> list B) l : map h (flat_map f l) = flat_map (fun x => map h (f x)) l.
+Proof. induction l as [|x l IH]; [reflexivity|]. cbn [flat_map]. now rewrite map_app, IH. Qed.
+
+Lemma entries_flat d : forall n, plain_v1 d = true -> npm_dep_entries n d = map ke (flat_v1 n d).
+Proof.
+  induction d as [v c nested IH] using npm_dep_ind2. intros n Hp.
+  cbn [plain_v1] in Hp. apply andb_true_iff in Hp as [Hp Hn]. apply andb_true_iff in Hp as [Hp H4].
+  apply andb_true_iff in Hp as [Hp H3]. apply andb_true_iff in Hp as [H1 H2].
+  apply negb_true_iff in H2, H3. destruct c; [|discriminate].
+  cbn [npm_dep_entries flat_v1]. rewrite map_app. cbn [map]. rewrite npm_dep_entry_plain by assumption. f_equal.
+  destruct nested as [ds|]; [|reflexivity]. unfold nested_all in IH.
+  rewrite map_flat_map. apply flat_map_ext_Forall.
+  rewrite forallb_forall in Hn. rewrite Forall_forall in IH |- *. intros nd Hnd. apply IH; [exact Hnd|now apply Hn].
+Qed.
+
+Lemma flat_no_at d : forall n p, plain_v1 d = true -> In p (flat_v1 n d) -> contains_byte AT (snd p) = false.
+Proof.
+  induction d as [v c nested IH] using npm_dep_ind2. intros n p Hp Hin.
+  cbn [plain_v1] in Hp. apply andb_true_iff in Hp as [Hp Hn]. apply andb_true_iff in Hp as [_ H4]. apply negb_true_iff in H4.
+  cbn [flat_v1] in Hin. apply in_app_or in Hin as [Hin|[<-|[]]]; [|exact H4].
+  destruct nested as [ds|]; [|contradiction]. unfold nested_all in IH. apply in_flat_map in Hin as (nd & Hnd & Hin).
+  rewrite forallb_forall in Hn. rewrite Forall_forall in IH. exact (IH nd Hnd (fst nd) p (Hn nd Hnd) Hin).
+Qed.
+
+(* amap_set *)
+Lemma amap_set_in {V} k (v : V) d k' v' : In (k', v') (amap_set k v d) -> (k' = k /\ v' = v) \/ In (k', v') d.
+Proof.
+  induction d as [|[k0 v0] d IH]; cbn [amap_set]; [intros [E|[]]; inversion E; auto|].
+  destruct (bytes_eqb k k0) eqn:E; intros [H|H]; try (inversion H; auto; fail).
+  - right. now right.
+  - right. now left.
+  - destruct (IH H) as [?|?]; [now left|right; now right].
+Qed.
+Lemma amap_set_self {V} k (v : V) d : In (k, v) (amap_set k v d).
+Proof.
+  induction d as [|[k0 v0] d IH]; cbn [amap_set]; [now left|]. destruct (bytes_eqb k k0); [now left|now right].
+Qed.
+Lemma amap_set_other {V} k (v : V) d k' v' : In (k', v') d -> k' <> k -> In (k', v') (amap_set k v d).
+Proof.
+  induction d as [|[k0 v0] d IH]; intros Hin Hne; [contradiction|]. cbn [amap_set].
+  destruct (bytes_eqb k k0) eqn:E.
+  - apply bytes_eqb_eq in E. subst k0. destruct Hin as [H|H]; [inversion H; congruence|now right].
+  - destruct Hin as [H|H]; [now left|right; now apply IH].
+Qed.
+Lemma amap_set_keys {V} k (v : V) d : NoDup (map fst d) -> NoDup (map fst (amap_set k v d)).
+Proof.
+  induction d as [|[k0 v0] d IH]; intros H; cbn [amap_set map fst]; [constructor; [intros []|constructor]|].
+  cbn [map fst] in H. inversion H as [|? ? Hn H']; subst. destruct (bytes_eqb k k0) eqn:E.
+  - apply bytes_eqb_eq in E. subst. cbn [map fst]. now constructor.
+  - cbn [map fst]. constructor; [|now apply IH]. intros Hin. apply in_map_iff in Hin as ([k1 v1] & E1 & Hin). cbn [fst] in E1. subst k1.
+    apply amap_set_in in Hin as [[-> _]|Hin]; [rewrite bytes_eqb_refl in E; discriminate|].
+    apply Hn. apply in_map_iff. exists (k0, v1). auto.
+Qed.
+
+Definition dd_inv (d : list (bytes * pkg)) (S : list pkg) : Prop :=
+  NoDup (map fst d) /\ (forall k v, In (k, v) d -> k = fst (ke v) /\ In v S) /\ (forall v, In v S -> In (ke v) d).
+
+Lemma dedup_fold ps : forall d S,
+  dd_inv d S -> (forall p q, In p (S ++ ps) -> In q (S ++ ps) -> fst (ke p) = fst (ke q) -> p = q) ->
+  dd_inv (fold_left (fun d e => amap_set (fst e) (snd e) d) (map ke ps) d) (S ++ ps).
+Proof.
+  induction ps as [|p ps IH]; intros d S Hinv Hinj; [now rewrite app_nil_r|].
+  cbn [map fold_left]. replace (S ++ p :: ps) with ((S ++ [p]) ++ ps) by now rewrite <- app_assoc.
+  apply IH; [|now rewrite <- app_assoc].
+  destruct Hinv as (I1 & I2 & I3). cbn [ke fst snd]. split; [now apply amap_set_keys|]. split.
+  - intros k v Hin. apply amap_set_in in Hin as [[-> ->]|Hin]; [split; [reflexivity|apply in_or_app; right; now left]|].
+    destruct (I2 k v Hin) as [E Hs]. split; [exact E|apply in_or_app; now left].
+  - intros v Hv. apply in_app_or in Hv as [Hv|[<-|[]]]; [|apply amap_set_self].
+    destruct (list_eq_dec N.eq_dec (fst (ke v)) (fst p ++ AT :: snd p)) as [E|E].
+    + assert (v = p) as -> by (apply Hinj; [apply in_or_app; now left|apply in_or_app; right; now left|exact E]). apply amap_set_self.
+    + apply amap_set_other; [apply (I3 v Hv)|exact E].
+Qed.
+
+Lemma NoDup_snd_of_keyed (d : list (bytes * pkg)) :
+  NoDup (map fst d) -> (forall k v, In (k, v) d -> k = fst (ke v)) -> NoDup (map snd d).
+Proof.
+  induction d as [|[k v] d IH]; intros Hn Hk; [constructor|]. cbn [map fst snd] in *. inversion Hn as [|? ? Hnin Hn']; subst.
+  constructor; [|apply IH; [exact Hn'|intros k' v' H; apply Hk; now right]].
+  intros Hin. apply in_map_iff in Hin as ([k' v'] & E & Hin). cbn [snd] in E. subst v'.
+  apply Hnin. apply in_map_iff. exists (k', v). split; [|exact Hin]. cbn [fst].
+  rewrite (Hk k v (or_introl eq_refl)), (Hk k' v (or_intror Hin)). reflexivity.
+Qed.
+
+Lemma packagelock_v1_struct_exact_lemma ds : wf_packagelock_v1 ds = true ->
+  exists out, extract_packagelock {| ns_packages := None; ns_dependencies := ds |} = Ok out /\
+              NoDup out /\ forall p, In p out <-> In p (flat_v1_all ds).
+Proof.
+  intros Hwf. unfold wf_packagelock_v1 in Hwf. rewrite forallb_forall in Hwf.
+  unfold extract_packagelock. cbn [ns_packages ns_dependencies]. eexists. split; [reflexivity|].
+  assert (npm_deps_all ds = map ke (flat_v1_all ds)) as E.
+  { unfold npm_deps_all, flat_v1_all. rewrite map_flat_map. apply flat_map_ext_Forall. apply Forall_forall.
+    intros nd Hnd. apply entries_flat. now apply Hwf. }
+  assert (forall p, In p (flat_v1_all ds) -> contains_byte AT (snd p) = false) as NA.
+  { intros p Hp. unfold flat_v1_all in Hp. apply in_flat_map in Hp as (nd & Hnd & Hp). exact (flat_no_at (snd nd) (fst nd) p (Hwf nd Hnd) Hp). }
+  unfold dedup_entries. rewrite E.
+  destruct (dedup_fold (flat_v1_all ds) [] []) as (I1 & I2 & I3).
+  - split; [constructor|]. split; [intros k v []|intros v []].
+  - cbn [app]. intros p q Hp Hq Ek. unfold ke in Ek. cbn [fst] in Ek.
+    pose proof (cut_last_app _ (fst p) (NA p Hp)) as C1. pose proof (cut_last_app _ (fst q) (NA q Hq)) as C2.
+    rewrite Ek, C2 in C1. destruct p, q. cbn [fst snd] in C1. now inversion C1.
+  - cbn [app] in *. split.
+    + apply NoDup_snd_of_keyed; [exact I1|]. intros k v H. now destruct (I2 k v H).
+    + intros p. split.
+      * intros Hin. apply in_map_iff in Hin as ([k v] & Es & Hin). cbn [snd] in Es. subst v. now destruct (I2 k p Hin).
+      * intros Hin. apply in_map_iff. exists (ke p). split; [reflexivity|now apply I3].
 Qed.
